@@ -91,7 +91,7 @@ def from_lines_matrix(ctx):
     ctx.ensure("C15:from_planes-is_degenerate", bool(Q.is_degenerate), prop="C15")
 
 
-@case("C13", "ellipse.circle.sphere", ["cx", "cy", "cz", "h", "v", "x", "y", "z", "w"], mode="real",
+@case("C13", "ellipse.circle.sphere", ["cx", "cy", "cz", "h", "v", "x", "y", "z", "w", "s"], mode="real", also=("C03",), share=True,
       functions=["geometer.curve.Ellipse.__init__", "geometer.curve.Circle.__init__", "geometer.curve.Sphere.__init__", "geometer.curve.Circle.radius",
                  "geometer.curve.Circle.area", "geometer.curve.Sphere.radius", "geometer.curve.Sphere.center", "geometer.curve.Sphere.volume", "geometer.curve.Sphere.area"],
       timeout=120, max_paths=200)
@@ -104,9 +104,12 @@ def ellipse_circle_sphere(ctx):
     ctx.assume(h > 0)
     ctx.assume(v > 0)
     ctx.assume(ctx.neg(ctx.zero(w)))
+    # the centre is given by an arbitrary homogeneous representative s * (cx, cy, 1), s != 0 (also negative)
+    s = ctx.sym("s")
+    ctx.assume(ctx.neg(ctx.zero(s)))
     sq = (lambda t: t ** 2) if ctx.symbolic else (lambda t: float(t) ** 2)
     with ctx.stubs():
-        E = gc.Ellipse(geometer.Point(cx, cy), h, v)
+        E = gc.Ellipse(geometer.Point(np.array([cx * s, cy * s, s])), h, v)
     p = [x * w, y * w, w]
     val = _qform(E.array, p)
     locus = ((x - cx) ** 2 * v * v + (y - cy) ** 2 * h * h - h * h * v * v) * w * w
@@ -114,7 +117,7 @@ def ellipse_circle_sphere(ctx):
     k = E.array[0][0]  # coefficient of x^2: k * v^2 with the normalisation used by the constructor
     ctx.ensure("ellipse:locus", ctx.conj([ctx.zero(val * v * v - k * locus, scale=None if ctx.symbolic else 1 + abs(k * locus)), ctx.neg(ctx.zero(k))]))
     with ctx.stubs():
-        Ci = gc.Circle(geometer.Point(cx, cy), h)
+        Ci = gc.Circle(geometer.Point(np.array([cx * s, cy * s, s])), h)
     valc = _qform(Ci.array, p)
     kc = Ci.array[0][0]
     ctx.ensure("circle:locus", ctx.conj([ctx.zero(valc - kc * ((x - cx) ** 2 + (y - cy) ** 2 - h * h) * w * w, scale=None if ctx.symbolic else 1 + abs(valc)), ctx.neg(ctx.zero(kc))]))
@@ -123,7 +126,7 @@ def ellipse_circle_sphere(ctx):
     ar = Ci.area
     ctx.ensure("circle:area==pi*r^2", ctx.zero(ar - np.pi * h * h, scale=None if ctx.symbolic else 1 + h * h))
     with ctx.stubs():
-        Sp = gc.Sphere(geometer.Point(cx, cy, cz), h)
+        Sp = gc.Sphere(geometer.Point(np.array([cx * s, cy * s, cz * s, s])), h)
     p3 = [x * w, y * w, z * w, w]
     vals = _qform(Sp.array, p3)
     ks = Sp.array[0][0]
@@ -345,6 +348,20 @@ def constructors_lattice(ctx):
                 ok, got = False, "%s: %s" % (type(e).__name__, e)
             ctx.ensure("from_tangent:contains-the-points-and-touches-the-line" + ("(known-bad-configuration)" if kf else ""), ok,
                        witness=dict(tangent=tangent.array.tolist(), order=order, got=got), excuse=kf)
+    # tangents in special position (coordinate axes, through the origin): the bracket reference point general_point is chosen by a fallback sequence
+    for (a_, b_, c_), centre in [((1, 0, 0), (2.0, 1.0)), ((0, 1, 0), (1.0, -3.0)), ((1, -1, 0), (3.0, 0.0)), ((1, 2, 0), (1.0, 1.0)), ((-2, 0, 0), (-1.5, 2.0)), ((0, 3, 0), (0.5, 2.0)),
+                               ((1, 0, -1), (3.0, 3.0)), ((1, 1, 0), (2.0, 2.0))]:
+        tangent = g.Line(a_, b_, c_)
+        r = abs(a_ * centre[0] + b_ * centre[1] + c_) / math.hypot(a_, b_)
+        P = [g.Point(centre[0] + r * math.cos(t), centre[1] + r * math.sin(t)) for t in (0.35, 1.45, 2.9, 4.4)]
+        try:
+            co = Conic.from_tangent(tangent, *P)
+            # two conics pass through four points and touch a line: either is accepted, the zero matrix is not
+            ok = np.abs(co.array).max() > 1e-9 and all(_on_conic(co, x) for x in P) and bool(co.is_tangent(tangent))
+            got = np.round(np.asarray(co.array, dtype=complex), 4).tolist()
+        except Exception as e:
+            ok, got = False, "%s: %s" % (type(e).__name__, e)
+        ctx.ensure("from_tangent:tangent-in-special-position", ok, witness=dict(tangent=(a_, b_, c_), centre=centre, radius=r, got=str(got)[:300]))
     # representative independence of from_tangent (C03): negating / rescaling one defining point or the tangent
     gp = [(1.0, 0.5), (-1.5, 0.25), (0.25, -1.0), (0.8, -0.9)]
     for tangent in [g.Line(0.3, 1, -1.7), g.Line(3, 4, -9)]:
